@@ -4,7 +4,10 @@ package quic_test
 // E2: close cause x set of concurrently blocked client API calls x timing of the cause x
 // idle/keep-alive configuration x fault on the closing exchange x history of the connection
 // (fresh Dial, resumed with 0-RTT accepted, resumed with 0-RTT rejected and continued with
-// NextConnection), all enumerated and run on the real client and server in virtual time.
+// NextConnection) x client kind (Transport, quic.Dial, browser specs: with and without source
+// connection IDs) x, for stateless resets, sender and size of the reset (the in-tree server's 42
+// bytes; every size class from 21 bytes to a full packet from a harness-played RFC 9000 peer),
+// all enumerated and run on the real client and server in virtual time.
 
 import (
 	"context"
